@@ -1,5 +1,5 @@
 //@PROBE file=src/trackers/visual_sort/batch_api.rs test=verif_probe_tracker_kinds clauses=tracker_kinds
-//@BOUND the four tracker kinds (Sort, BatchSort, VisualSort, BatchVisualSort) x {IoU(0.3), Mahalanobis} x store shards 1..=2 x voting workers 1..=2, history length 4 != max idle 2; one 12-step script over two scenes occupying the SAME image region (objects that disappear for 1, 3 and 4 steps, negative / large angles, confidence 0.6, an object that jumps 150 px keeping its appearance, a feature-less detection covering a third of another one; visual kinds with Euclidean(0.5) / Cosine(0.2) appearance metrics and own-area thresholds use=collect=0.4 / collect-only 0.8; per record also the number of collected features and the stored own-area share): (1) the per-call record contract, (2) the scene-1 trace of the two-scene run equals the run of scene 1 alone up to renaming of ids, (3) each batch kind equals its simple kind per scene up to renaming, (4) wasted()/idle after the last step
+//@BOUND the four tracker kinds (Sort, BatchSort, VisualSort, BatchVisualSort) x {IoU(0.3), Mahalanobis} x store shards 1..=2 x voting workers 1..=2, history length 4 != max idle 2; one 12-step script over two scenes occupying the SAME image region (objects that disappear for 1, 3 and 4 steps, negative / large angles, confidence 0.6, an object that jumps 150 px keeping its appearance, a feature-less detection covering a third of another one; visual kinds with Euclidean(0.5) / Cosine(0.2) appearance metrics and own-area thresholds use=collect=0.4 / collect-only 0.8; per record also the number of collected features and the stored own-area share): (1) the per-call record contract, (2) the scene-1 trace of the two-scene run equals the run of scene 1 alone up to renaming of ids, (3) each batch kind equals its simple kind per scene up to renaming, (4) idle listing after the last step; wasted() hands every track out once, with histories that hold the most recent min(length, history) entries in arrival order; custom ids sometimes absent; batch requests filled round-robin across the scenes; the stored own-area share equals the library's share of the detection among the detections of its own scene
 #[cfg(test)]
 mod verif_probe_tracker_kinds {
     // Bounded stand-in for the tracker-level clauses of C01 / C03 / C04 over ALL tracker kinds (predict* drive store
@@ -22,7 +22,7 @@ mod verif_probe_tracker_kinds {
     const IDLE: usize = 2;
 
     #[derive(Clone)]
-    struct Det { bbox: Universal2DBox, feat: Option<Vec<f32>>, cid: i64, obj: usize }
+    struct Det { bbox: Universal2DBox, feat: Option<Vec<f32>>, cid: Option<i64>, obj: usize }
 
     fn present(scene: u64, obj: usize, step: usize) -> bool {
         match (scene, obj) {
@@ -52,7 +52,7 @@ mod verif_probe_tracker_kinds {
         if cosine && scene == 1 && obj == 3 { feat[15] = 0.6f32.sqrt(); feat[8 + step % 6] = 0.4f32.sqrt(); }
         else { feat[(obj + 4 * (scene as usize - 1)) % 8] = 1.0; feat[7 - obj % 4] += 0.05 * (step % 2) as f32; }
         let feat = if scene == 1 && obj == 4 { None } else { Some(feat) };
-        Det { bbox: Universal2DBox::new_with_confidence(x, y, ang, asp, h, 0.6), feat, cid: (1000 * scene as i64 + 10 * obj as i64) * 100 + step as i64, obj }
+        Det { bbox: Universal2DBox::new_with_confidence(x, y, ang, asp, h, 0.6), feat, cid: if (step + obj) % 3 == 2 { None } else { Some((1000 * scene as i64 + 10 * obj as i64) * 100 + step as i64) }, obj }
     }
 
     #[derive(Clone, Copy, Debug, PartialEq, Eq, Hash)]
@@ -78,19 +78,27 @@ mod verif_probe_tracker_kinds {
         fn step(&mut self, scenes: &[(u64, Vec<Det>)]) -> HashMap<u64, Vec<SortTrack>> {
             let mut out = HashMap::new();
             match self {
-                T::S(t) => for (s, d) in scenes { out.insert(*s, t.predict_with_scene(*s, &d.iter().map(|x| (x.bbox.clone(), Some(x.cid))).collect::<Vec<_>>())); },
-                T::V(t) => for (s, d) in scenes { out.insert(*s, t.predict_with_scene(*s, &d.iter().map(|x| VisualSortObservation::new(x.feat.as_deref(), Some(0.9), x.bbox.clone(), Some(x.cid))).collect::<Vec<_>>())); },
+                T::S(t) => for (s, d) in scenes { out.insert(*s, t.predict_with_scene(*s, &d.iter().map(|x| (x.bbox.clone(), x.cid)).collect::<Vec<_>>())); },
+                T::V(t) => for (s, d) in scenes { out.insert(*s, t.predict_with_scene(*s, &d.iter().map(|x| VisualSortObservation::new(x.feat.as_deref(), Some(0.9), x.bbox.clone(), x.cid)).collect::<Vec<_>>())); },
                 T::BS(t) => {
                     let (mut req, res) = PredictionBatchRequest::<(Universal2DBox, Option<i64>)>::new();
-                    for (s, d) in scenes { for x in d { req.add(*s, (x.bbox.clone(), Some(x.cid))); } }
+                    // detections are handed to the request round-robin across the scenes (A, B, A, ..): the order of add() calls of
+                    // different scenes is the caller's business
+                    let longest = scenes.iter().map(|(_, d)| d.len()).max().unwrap_or(0);
+                    for k in 0..longest { for (s, d) in scenes { if let Some(x) = d.get(k) { req.add(*s, (x.bbox.clone(), x.cid)); } } }
                     t.predict(req);
-                    for _ in 0..res.batch_size() { let (s, r) = res.get(); out.insert(s, r); }
+                    let mut dup = res.batch_size() != scenes.len();
+                    for _ in 0..res.batch_size() { let (s, r) = res.get(); if out.insert(s, r).is_some() { dup = true; } }
+                    if dup { out.insert(u64::MAX, vec![]); }
                 }
                 T::BV(t) => {
                     let (mut req, res) = PredictionBatchRequest::<VisualSortObservation>::new();
-                    for (s, d) in scenes { for x in d { req.add(*s, VisualSortObservation::new(x.feat.as_deref(), Some(0.9), x.bbox.clone(), Some(x.cid))); } }
+                    let longest = scenes.iter().map(|(_, d)| d.len()).max().unwrap_or(0);
+                    for k in 0..longest { for (s, d) in scenes { if let Some(x) = d.get(k) { req.add(*s, VisualSortObservation::new(x.feat.as_deref(), Some(0.9), x.bbox.clone(), x.cid)); } } }
                     t.predict(req);
-                    for _ in 0..res.batch_size() { let (s, r) = res.get(); out.insert(s, r); }
+                    let mut dup = res.batch_size() != scenes.len();
+                    for _ in 0..res.batch_size() { let (s, r) = res.get(); if out.insert(s, r).is_some() { dup = true; } }
+                    if dup { out.insert(u64::MAX, vec![]); }
                 }
             }
             out
@@ -109,7 +117,18 @@ mod verif_probe_tracker_kinds {
         }
         fn idle(&mut self, s: u64) -> Vec<u64> { let mut v: Vec<u64> = match self { T::S(t) => t.idle_tracks_with_scene(s), T::BS(t) => t.idle_tracks_with_scene(s), T::V(t) => t.idle_tracks_with_scene(s), T::BV(t) => t.idle_tracks_with_scene(s) }.iter().map(|x| x.id).collect(); v.sort(); v }
         fn skip(&mut self, s: u64, n: usize) { match self { T::S(t) => t.skip_epochs_for_scene(s, n), T::BS(t) => t.skip_epochs_for_scene(s, n), T::V(t) => t.skip_epochs_for_scene(s, n), T::BV(t) => t.skip_epochs_for_scene(s, n) } }
-        fn wasted_ids(&mut self) -> Vec<u64> { let mut v: Vec<u64> = match self { T::S(t) => t.wasted().iter().map(|x| x.get_track_id()).collect(), T::BS(t) => t.wasted().iter().map(|x| x.get_track_id()).collect(), T::V(t) => t.wasted().iter().map(|x| x.get_track_id()).collect(), T::BV(t) => t.wasted().iter().map(|x| x.get_track_id()).collect() }; v.sort(); v }
+        /// the wasted-track records: (id, observed history, echoed observed box, predicted history, echoed predicted box)
+        fn wasted_records(&mut self) -> Vec<(u64, Vec<[u32; 5]>, [u32; 5], Vec<[u32; 5]>, [u32; 5])> {
+            let hb = |v: &Vec<Universal2DBox>| v.iter().map(bits).collect::<Vec<_>>();
+            let mut v: Vec<_> = match self {
+                T::S(t) => t.wasted().into_iter().map(crate::trackers::sort::WastedSortTrack::from).map(|w| (w.id, hb(&w.observed_boxes), bits(&w.observed_bbox), hb(&w.predicted_boxes), bits(&w.predicted_bbox))).collect(),
+                T::BS(t) => t.wasted().into_iter().map(crate::trackers::sort::WastedSortTrack::from).map(|w| (w.id, hb(&w.observed_boxes), bits(&w.observed_bbox), hb(&w.predicted_boxes), bits(&w.predicted_bbox))).collect(),
+                T::V(t) => t.wasted().into_iter().map(crate::trackers::visual_sort::WastedVisualSortTrack::from).map(|w| (w.id, hb(&w.observed_boxes), bits(&w.observed_bbox), hb(&w.predicted_boxes), bits(&w.predicted_bbox))).collect(),
+                T::BV(t) => t.wasted().into_iter().map(crate::trackers::visual_sort::WastedVisualSortTrack::from).map(|w| (w.id, hb(&w.observed_boxes), bits(&w.observed_bbox), hb(&w.predicted_boxes), bits(&w.predicted_bbox))).collect(),
+            };
+            v.sort_by_key(|x| x.0);
+            v
+        }
     }
 
     /// (track name by first appearance, epoch, length, observed box bits, predicted box bits) per record
@@ -127,7 +146,7 @@ mod verif_probe_tracker_kinds {
         for step in 0..12usize {
             let batch: Vec<(u64, Vec<Det>)> = scenes.iter().map(|s| (*s, (0..5).filter(|o| present(*s, *o, step)).map(|o| det(*s, o, step, variant & 1 == 1)).collect::<Vec<_>>())).filter(|(_, d)| !d.is_empty()).collect();
             let out = t.step(&batch);
-            if out.len() != batch.len() { failures.push(format!("{} step={}: tracker_kinds.one_result_per_scene: {} results for {} scenes", ctx, step, out.len(), batch.len())); }
+            if out.len() != batch.len() || out.contains_key(&u64::MAX) { failures.push(format!("{} step={}: tracker_kinds.one_result_per_scene: the batch of {} scenes did not deliver exactly one result per scene", ctx, step, batch.len())); }
             for (s, dets) in batch.iter() {
                 let e = { let x = epochs.entry(*s).or_insert(0); *x += 1; *x };
                 let recs = match out.get(s) { Some(r) => r, None => { failures.push(format!("{} step={} scene={}: tracker_kinds.one_result_per_scene: no result", ctx, step, s)); continue; } };
@@ -137,14 +156,23 @@ mod verif_probe_tracker_kinds {
                 let mut row = vec![];
                 for (k, r) in recs.iter().enumerate() {
                     let d = &dets[k];
-                    if bits(&r.observed_bbox) != bits(&d.bbox) || r.observed_bbox.confidence.to_bits() != d.bbox.confidence.to_bits() || r.custom_object_id != Some(d.cid) || r.scene_id != *s || r.epoch != e {
-                        failures.push(format!("{} step={} scene={} detection #{}: tracker_kinds.record_echoes_its_detection_in_submission_order: got (box {:?} conf {}, custom id {:?}, scene {}, epoch {}) for detection (box {:?} conf {}, custom id {}, scene {}, epoch {})", ctx, step, s, k,
+                    if bits(&r.observed_bbox) != bits(&d.bbox) || r.observed_bbox.confidence.to_bits() != d.bbox.confidence.to_bits() || r.custom_object_id != d.cid || r.scene_id != *s || r.epoch != e {
+                        failures.push(format!("{} step={} scene={} detection #{}: tracker_kinds.record_echoes_its_detection_in_submission_order: got (box {:?} conf {}, custom id {:?}, scene {}, epoch {}) for detection (box {:?} conf {}, custom id {:?}, scene {}, epoch {})", ctx, step, s, k,
                             (r.observed_bbox.xc, r.observed_bbox.yc, r.observed_bbox.angle, r.observed_bbox.aspect, r.observed_bbox.height), r.observed_bbox.confidence, r.custom_object_id, r.scene_id, r.epoch, (d.bbox.xc, d.bbox.yc, d.bbox.angle, d.bbox.aspect, d.bbox.height), d.bbox.confidence, d.cid, s, e));
                     }
                     if *s != watch { continue; }
                     let n = names.len();
                     let name = *names.entry(r.id).or_insert(n);
-                    if *s == watch { row.push((name, r.epoch, r.length, bits(&r.observed_bbox), bits(&r.predicted_bbox), t.gallery(r.id))); }
+                    let gal = t.gallery(r.id);
+                    if matches!(kind, Kind::V | Kind::BV) {
+                        // an own-area threshold is configured in every visual variant: the share stored with the newest observation is
+                        // the library's own share of this detection among the detections of ITS scene in this call
+                        let boxes: Vec<&Universal2DBox> = dets.iter().map(|x| &x.bbox).collect();
+                        let want = crate::utils::clipping::bbox_own_areas::exclusively_owned_areas_normalized_shares(&boxes, &crate::utils::clipping::bbox_own_areas::exclusively_owned_areas(&boxes));
+                        let want_k = (want[k] * 1000.0).round() as u32;
+                        if gal.1 != want_k { failures.push(format!("{} step={} scene={} detection #{}: tracker_kinds.own_area_share_of_the_detection_within_its_scene_is_recorded: stored share x1000 = {} (4294967295 = none), the share among the scene's detections is {}", ctx, step, s, k, gal.1, want_k)); }
+                    }
+                    if *s == watch { row.push((name, r.epoch, r.length, bits(&r.observed_bbox), bits(&r.predicted_bbox), gal)); }
                     // ground truth for the object that jumps 150 px at step 6 keeping its appearance: the appearance trackers
                     // re-identify it (same track, reported as a visual attachment), the positional trackers start a new track
                     if *s == 1 && d.obj == 3 {
@@ -163,8 +191,21 @@ mod verif_probe_tracker_kinds {
         }
         let idle: Vec<usize> = t.idle(watch).iter().map(|i| *names.get(i).unwrap_or(&999)).collect();
         t.skip(watch, 10);
-        let mut w: Vec<usize> = t.wasted_ids().iter().filter_map(|i| names.get(i).copied()).collect(); w.sort();
-        if !t.wasted_ids().iter().all(|i| !names.contains_key(i)) { failures.push(format!("{}: tracker_kinds.wasted_hands_out_once: a track was handed out twice", ctx)); }
+        let recs = t.wasted_records();
+        let mut w: Vec<usize> = recs.iter().filter_map(|r| names.get(&r.0).copied()).collect(); w.sort();
+        // the histories handed out with a collected track: the most recent min(length, history length) entries in arrival order
+        for r in recs.iter() {
+            if let Some(name) = names.get(&r.0) {
+                let seen: Vec<([u32; 5], [u32; 5])> = trace.iter().flat_map(|row| row.iter().filter(|x| x.0 == *name).map(|x| (x.3, x.4))).collect();
+                let keep = seen.len().min(HIST);
+                let want_obs: Vec<[u32; 5]> = seen[seen.len() - keep..].iter().map(|x| x.0).collect();
+                let want_pred: Vec<[u32; 5]> = seen[seen.len() - keep..].iter().map(|x| x.1).collect();
+                if r.1 != want_obs || r.3 != want_pred || Some(&r.2) != want_obs.last() || Some(&r.4) != want_pred.last() {
+                    failures.push(format!("{}: tracker_kinds.wasted_record_hands_out_the_most_recent_history_entries_in_order: track {} (length {}): observed history has {} entries (expected the last {}), echoed box is the last entry: {}, predicted history matches: {}", ctx, name, seen.len(), r.1.len(), keep, Some(&r.2) == want_obs.last() && r.1.last() == want_obs.last(), r.3 == want_pred));
+                }
+            }
+        }
+        if !t.wasted_records().iter().all(|r| !names.contains_key(&r.0)) { failures.push(format!("{}: tracker_kinds.wasted_hands_out_once: a track was handed out twice", ctx)); }
         (trace, idle, w)
     }
 
